@@ -19,8 +19,8 @@ from ..corpus import b64, unb64
 
 PROP = "C15"
 LEVEL = "fault_enumeration"
-COUNTS = {"quick": 300, "thorough": 2600}
-WALL = {"quick": 900, "thorough": 6000}
+COUNTS = {"quick": 300, "thorough": 4000}
+WALL = {"quick": 900, "thorough": 5000}
 RULE = (
     "scenario = seeded workload (1-5 pool documents, names, scan|fix, flags, world) + list of faults drawn from the sites "
     "its dry run reached (thorough: every audited fs step of every fix x {kill, kill_trunc, kill_partial, EIO/ENOSPC/EACCES}, "
@@ -51,6 +51,7 @@ PROBES = [
     "undecodable",
 ]
 
+THOROUGH_FAULTS_PER_WORKLOAD = 120
 EXCS = ["RuntimeError", "IndexError", "AssertionError", "KeyError"]
 OSERRS = ["EIO", "ENOSPC", "EACCES", "ENOENT"]
 
@@ -207,6 +208,19 @@ def _enumerate_faults(rng, sites, mode, names, tier):
             for site in rng.sample(inflight, min(12, len(inflight))):
                 faults.append({"kind": "kill", "file": site[1], "plan": plan(site, "kill")})
         faults.extend(_double_faults(rng, cb, parse, names, plan, 4))
+        if len(faults) > THOROUGH_FAULTS_PER_WORKLOAD:
+            # keep every fault at a step that touches a document or its working copy,
+            # fill up with a seeded sample of the rest (bounded work per workload, so the
+            # wall cap of the sweep stays meaningful)
+            def near_document(fault):
+                site = (fault.get("plan") or {}).get("site", "")
+                return site.startswith("fs/") and site.split("/")[2] in ("target", "work-new") or site == "copy/chunk"
+
+            keep = [f for f in faults if near_document(f)]
+            rest = [f for f in faults if not near_document(f)]
+            rng.shuffle(keep)
+            rng.shuffle(rest)
+            faults = (keep + rest)[:THOROUGH_FAULTS_PER_WORKLOAD]
         return faults
 
     # quick: a handful, spread over kinds
